@@ -529,21 +529,18 @@ func (p Sqlite) UpdateContactPoint(contact *alertutils.Contact) error {
 		return err
 	}
 
-	if len(contact.Slack) != 0 {
-		err := p.db.Model(&alertutils.Contact{ContactId: contact.ContactId}).Association("Slack").Clear()
-		if err != nil {
-			err = fmt.Errorf("UpdateContactPoint: unable to update contact : %v, Error=%+v", contact.ContactName, err)
-			log.Error(err.Error())
-			return err
-		}
+	// the lists of the request replace the stored ones, also when they are empty
+	err = p.db.Model(&alertutils.Contact{ContactId: contact.ContactId}).Association("Slack").Clear()
+	if err != nil {
+		err = fmt.Errorf("UpdateContactPoint: unable to update contact : %v, Error=%+v", contact.ContactName, err)
+		log.Error(err.Error())
+		return err
 	}
-	if len(contact.Webhook) != 0 {
-		err := p.db.Model(&alertutils.Contact{ContactId: contact.ContactId}).Association("Webhook").Clear()
-		if err != nil {
-			err = fmt.Errorf("UpdateContactPoint: unable to update contact: %v, Error=%+v", contact.ContactName, err)
-			log.Error(err.Error())
-			return err
-		}
+	err = p.db.Model(&alertutils.Contact{ContactId: contact.ContactId}).Association("Webhook").Clear()
+	if err != nil {
+		err = fmt.Errorf("UpdateContactPoint: unable to update contact: %v, Error=%+v", contact.ContactName, err)
+		log.Error(err.Error())
+		return err
 	}
 	result := p.db.Session(&gorm.Session{FullSaveAssociations: true}).Save(&contact)
 	if result.Error != nil && result.RowsAffected != 1 {
